@@ -1,7 +1,7 @@
 (* C34 — Autocomplete never runs a line containing unsafe commands.
    Case type, correspondence predicate and property predicate evaluated on what
    the implementation did. Depends on the model only. *)
-From Murex Require Export Base.Outcome Base.Bytes Base.CheckLib Model.Tokenizer.
+From Murex Require Export Base.Outcome Base.Bytes Base.CheckLib Model.Tokenizer Model.CmdLine.
 From Murex Require Import Gen.SafeCmds.
 Local Open Scope N_scope.
 
@@ -21,7 +21,12 @@ Record case := {
   c_cmds : list (list N);     (* every command of the parsed tree, recursively through { } parameters;
                                  an expression statement appears as the command `expr` *)
   c_subshell : bool;          (* some parameter contains ${ or @{ outside single quotes / parenthesis quotes *)
-  c_redirect : bool           (* some function has a named-pipe redirection <name> *)
+  c_redirect : bool;          (* some function has a named-pipe redirection <name> *)
+  (* cases generated from the grammar of Model/CmdLine.v carry their syntax tree and the
+     command names of the real ParseBlock tree of the WHOLE line *)
+  c_line : option line;
+  c_all_cmds : list (list N);
+  c_all_perr : bool
 }.
 
 Definition tok_fields (src : list N) : option (bool * list N * bool * Z) :=
@@ -34,15 +39,55 @@ Definition tok_fields (src : list N) : option (bool * list N * bool * Z) :=
 Definition tok_unsafe (src : list N) : bool :=
   match tok_fields src with Some (u, _, _, _) => u | None => true end.
 
+Fixpoint list_runes_eqb (a b : list (list N)) : bool :=
+  match a, b with
+  | [], [] => true
+  | x :: a', y :: b' => runes_eqb x y && list_runes_eqb a' b'
+  | _, _ => false
+  end.
+
+Fixpoint is_prefix (a b : list N) : bool :=
+  match a, b with
+  | [], _ => true
+  | x :: a', y :: b' => (x =? y) && is_prefix a' b'
+  | _ :: _, [] => false
+  end.
+
+Definition last_stmt (l : line) : stmt := last (map snd (snd l)) (fst l).
+Definition has_block (s : stmt) : bool :=
+  existsb (fun it => match it with IBlock _ _ => true | IArg _ => false end) (st_items s).
+Definition prefix_line (l : line) : option line :=
+  match snd l with [] => None | _ => Some (fst l, removelast (snd l)) end.
+
+(* grammar cases: the tree is well formed, renders to the typed runes, the real block
+   parser finds exactly [commands] in the whole line, and the structural prefix
+   (everything before the last separator) is the text before LastFlowToken (up to
+   the spaces / first `|` of `||` that precede the token) *)
+Definition grammar_agree (c : case) : bool :=
+  match c_line c with
+  | None => true
+  | Some l =>
+      line_ok l && runes_eqb (render_line l) (c_src c) &&
+      negb (c_all_perr c) && list_runes_eqb (commands l) (c_all_cmds c) &&
+      (has_block (last_stmt l) ||
+       match prefix_line l with
+       | None => (c_last_flow c =? 0)%Z
+       | Some pl =>
+           let exe := firstn (Z.to_nat (c_last_flow c)) (c_src c) in
+           is_prefix (render_line pl) exe &&
+           forallb (fun r => (r =? 32) || (r =? 124)) (skipn (length (render_line pl)) exe)
+       end)
+  end.
+
 (* correspondence: the model predicts the tokenizer's verdict and the three other
-   fields the completion code reads *)
+   fields the completion code reads; for grammar cases also [grammar_agree] *)
 Definition agree (c : case) : bool :=
   match tok_fields (c_src c) with
   | Some (u, f, e, lf) =>
       Bool.eqb u (c_unsafe c) && runes_eqb f (c_func c) && Bool.eqb e (c_expect_func c) &&
       (lf =? c_last_flow c)%Z
   | None => false
-  end.
+  end && grammar_agree c.
 
 Definition safe_name (c : list N) : bool := existsb (runes_eqb c) safe_cmds.
 
